@@ -276,51 +276,83 @@ def l3(rep, w):
     r.check(ws == [ea.path], 'Parser.errors has one writer (error_at)', 'errors pushed in %s' % ws)
     # scanner: each `== "\n"` true region increments line
     n = 0
+    SCN = 'yarel::scanner::Scanner::'
     for f in sorted(c.fns.values(), key=lambda x: x.path):
         if not f.file.endswith('scanner.rs'):
             continue
-        dom = None
-        for bi, t in f.calls():
-            name = callee_name(t) or ''
-            if not (name.endswith('::eq') and 'str' in name):
-                continue
-            consts = [op_const(a) for a in t['args']]
-            is_nl = False
-            for a in t['args']:
-                k = op_const(a)
-                if k is not None and k.get('s') in ('"\\n"', "\"\\n\""):
-                    is_nl = True
-                pl = op_place(a)
-                if pl is not None:
-                    for s in f.blocks[bi]['s']:
-                        if s.get('d', {}).get('l') == pl['l']:
-                            k2 = op_const(s['r'].get('o', {}) or {})
-                            if k2 is not None and k2.get('s') == '"\\n"':
-                                is_nl = True
-            if not is_nl:
-                continue
+        tests = newline_tests(f)
+        dom = f.dominators() if tests else None
+        for (bi, true_t, sp) in tests:
             n += 1
-            nxt = t.get('to')
-            tt = f.blocks[nxt]['t'] if nxt is not None else None
-            if tt is None or tt['t'] != 'switch':
+            if true_t is None:
                 r.bad('%s / newline test #%d' % (f.path, n), 'comparison with "\\n" not followed by a branch')
                 continue
-            true_t = tt['else']
-            if dom is None:
-                dom = f.dominators()
             arm = {b for b in dom if true_t in dom[b]}
             inc = False
             for b in arm:
-                for s in f.blocks[b]['s']:
-                    rr = s.get('r', {})
+                for s_ in f.blocks[b]['s']:
+                    rr = s_.get('r', {})
                     if rr.get('rv') == 'bin' and rr['op'].startswith('Add'):
                         pl = op_place(rr['a'])
                         if pl and any(isinstance(e, dict) and e.get('n') == 'line' for e in pl.get('p', [])):
                             inc = True
             r.check(inc, '%s / newline arm' % f.path, 'the scanner matches a newline without incrementing its line counter: every later token '
-                    'and error is reported one line too early', f.loc(t.get('sp')))
-    if n < 2:
+                    'and error is reported one line too early', f.loc(sp))
+        # ... and no loop consumes arbitrary characters without looking for newlines: a cycle that calls advance() either contains a
+        # newline test or only advances over a character class that excludes the newline (is_digit / is_alpha ...)
+        advs = [bi for bi, t in f.calls() if callee_name(t) == SCN + 'advance']
+        for a in advs:
+            reach = f.reachable_blocks(a)
+            scc = {b for b in reach if a in f.reachable_blocks(b)} if any(a in f.reachable_blocks(s_) for s_ in f.succs()[a]) else set()
+            if not scc:
+                continue
+            has_nl = any(bi in scc for (bi, _, _) in tests)
+            guarded = any(callee_name(t).startswith('yarel::scanner::is_') for bi, t in f.calls() if bi in scc and callee_name(t))
+            # `while self.peek() != "\n" { self.advance(); }` stops in front of the newline
+            if not guarded:
+                forg = origins(f)
+                guarded = any((callee_name(t) or '').endswith('::ne') and any('"\\n"' in f.operand_strings(forg, x) for x in t['args']) for bi, t in f.calls() if bi in scc)
+            r.check(has_nl or guarded, '%s / loop over advance() looks for newlines' % f.path.replace(SCN, 'Scanner::'),
+                    'Scanner::%s consumes characters in a loop that neither tests for "\\n" nor is restricted to a character class: a newline swallowed there is not counted, and every '
+                    'later token, compile error and stack-trace line of the file is too small' % f.path.replace(SCN, ''), f.loc(f.blocks[a]['t'].get('sp')))
+    if n < 3:
         raise Broken('C17', 'floor', 'only %d newline comparisons found in the scanner' % n)
+
+
+def newline_tests(f):
+    """[(block of the comparison, entry block of its true arm or None, span)] for every `x == "\n"` in f (constant given directly,
+    through a local, or through a promoted constant; result branched on at once or after being copied)"""
+    out = []
+    org = None
+    for bi, t in f.calls():
+        name = callee_name(t) or ''
+        if not (name.endswith('::eq') and ('str' in name or 'PartialEq' in name)):
+            continue
+        if org is None:
+            org = origins(f)
+        is_nl = any('"\\n"' in f.operand_strings(org, a) for a in t['args'])
+        if not is_nl:
+            for a in t['args']:
+                pl = op_place(a)
+                if pl is not None:
+                    for s_ in f.blocks[bi]['s']:
+                        if s_.get('d', {}).get('l') == pl['l']:
+                            k2 = op_const(s_['r'].get('o', {}) or {})
+                            if k2 is not None and k2.get('s') == '"\\n"':
+                                is_nl = True
+        if not is_nl:
+            continue
+        true_t = None
+        dl = t['dst']['l']
+        for b2 in f.normal_blocks():
+            tt = f.blocks[b2]['t']
+            if tt['t'] != 'switch' or op_place(tt['d']) is None:
+                continue
+            dloc = op_place(tt['d'])['l']
+            if dloc == dl or any(q[0][0] == 'call' and q[0][1] == bi for q in org.get(dloc, ())):
+                true_t = tt['else']
+        out.append((bi, true_t, t.get('sp')))
+    return out
 
 
 def l4(rep, w):
